@@ -4,7 +4,7 @@
 //
 // Pre-state: a context stack of concrete shape (1-3 contexts, each regular or volatile) and one
 // variable name "x" with an entry in a concrete subset of the contexts; the CONTENT of every entry
-// (has a value or not, exported, read-only) is symbolic. A second name "y" with one entry in the
+// (exported, read-only; in the environment step also: has a value or not) is symbolic. A second name "y" with one entry in the
 // base context checks non-interference. One operation with a symbolic scope is run on the real
 // `VariableSet` and on a reference model (one optional record per context, written from the
 // documentation of `VariableSet` / docs/src/language/parameters/variables.md), and the two are
@@ -42,19 +42,27 @@ fn mk_var(r: &Rec) -> Variable {
     }
 }
 
-fn any_rec(tag: usize) -> Rec {
-    Rec { present: true, has_value: kani::any(), tag, exported: kani::any(), read_only: kani::any() }
+/// `sym_value`: whether "has a value" is symbolic too. Only the environment step needs it; elsewhere
+/// every entry has a value (a conditionally allocated `String` that is later cloned or dropped gave
+/// 12.6 M SAT variables and ran out of memory: `String::clone` with a symbolic length).
+fn any_rec(tag: usize, sym_value: bool) -> Rec {
+    let has_value = if sym_value { kani::any() } else { true };
+    Rec { present: true, has_value, tag, exported: kani::any(), read_only: kani::any() }
 }
 
 /// Builds the real set and the model. `kinds[i]` = context i is regular; `mask` bit i = "x" has an
 /// entry in context i.
 fn build(kinds: &[bool], mask: u8) -> (VariableSet, [Rec; 3]) {
+    build_with(kinds, mask, false)
+}
+
+fn build_with(kinds: &[bool], mask: u8, sym_value: bool) -> (VariableSet, [Rec; 3]) {
     let mut model = [ABSENT; 3];
     let mut stack = crate::verif_inl::InlineVec::new();
     let mut i = 0;
     while i < kinds.len() {
         if mask & (1 << i) != 0 {
-            let r = any_rec(i);
+            let r = any_rec(i, sym_value);
             stack.push(VariableInContext { variable: mk_var(&r), context_index: i });
             model[i] = r;
         }
@@ -430,7 +438,7 @@ fn step_dbg3(kinds: &[bool], mask: u8) {
 /// env_c_strings: the environment for executed programs is exactly the VISIBLE variables that are
 /// exported and have a value, as `name=value`.
 fn step_env(kinds: &[bool], mask: u8) {
-    let (set, model) = build(kinds, mask);
+    let (set, model) = build_with(kinds, mask, true);
     let mut top = None;
     let mut i = 0;
     while i < 3 {
